@@ -602,6 +602,7 @@ func runC14(t *testing.T, rep *mc.Reporter) {
 		topo  []string
 		foo   bool
 		colo  bool
+		burst bool
 	}
 	var cplans []cplan
 	for _, ls := range laneSeqs {
@@ -647,7 +648,10 @@ func runC14(t *testing.T, rep *mc.Reporter) {
 			tplans = append(tplans, cplan{lanes: []int{0, 1, 0}, bound: tb, mode: mode, topo: tp})
 		}
 	}
-	// both lanes on one node: the transaction queued behind a redirected one on the same node pipeline
+	// both lanes on one node. NOTE: in parallel mode every lane worker owns its OWN cluster client (its own
+	// node pipelines) and receives each unit's reply before it dispatches the next, so two transactions are
+	// never in flight on one node connection here; the colocated lanes only share the NODE (its slot map
+	// and redirect answers). Transactions queued behind one another on one connection: pipeline plans below
 	for _, tp := range [][]string{{"O"}, {"M", "F"}} {
 		tb := 1
 		if tier == "thorough" {
@@ -656,7 +660,31 @@ func runC14(t *testing.T, rep *mc.Reporter) {
 		tplans = append(tplans, cplan{lanes: []int{0, 1, 0}, bound: tb, mode: "parallel", topo: tp, colo: true},
 			cplan{lanes: []int{0, 1}, bound: tb + 1, mode: "parallel", topo: tp, colo: true})
 	}
+	// pipeline mode: ONE cluster client carries every unit (window 2), so the units of different slots
+	// of one node are written to one node connection; with the stream arriving in one read (burst) the
+	// second transaction is on the wire before the first one's reply is read
+	for _, tp := range [][]string{{"O"}, {"M", "F"}, {"M", "K", "F"}, {"M"}} {
+		tb := 1
+		if tier == "thorough" {
+			tb = 2
+		}
+		tplans = append(tplans, cplan{lanes: []int{0, 1, 0}, bound: tb, mode: "pipeline", topo: tp},
+			cplan{lanes: []int{0, 1, 0}, bound: tb, mode: "pipeline", topo: tp, colo: true, burst: true})
+		if tier == "thorough" {
+			tplans = append(tplans, cplan{lanes: []int{1, 0, 1, 0}, bound: tb, mode: "pipeline", topo: tp, colo: true, burst: true},
+				cplan{lanes: []int{0, 1, 0}, bound: tb, mode: "pipeline", topo: tp, burst: true})
+		}
+	}
 	fam := os.Getenv("VERIF_FAMILY") // development aid / parts: "cauto" = only the AutoFlush cluster plan
+	if strings.HasPrefix(fam, "ctopo:") { // development aid: "ctopo:<mode>" = only the plans of one mode
+		var keep []cplan
+		for _, cp := range tplans {
+			if cp.mode == fam[len("ctopo:"):] {
+				keep = append(keep, cp)
+			}
+		}
+		tplans, fam = keep, "ctopo"
+	}
 	if fam == "cauto" {
 		var keep []cplan
 		for _, cp := range cplans {
@@ -687,7 +715,7 @@ func runC14(t *testing.T, rep *mc.Reporter) {
 			rep.Capped("cluster scenarios: their share of the deadline is used up")
 			break
 		}
-		cscn := c14cScenario{Lanes: cp.lanes, Cfg: biCfg{cp.mode, 2}, MaxCrashes: ccrashes, Idle: 1, Cluster: true, Soft: cp.soft, Pre: cp.pre, AutoFlush: cp.auto, PreSameLife: cp.same, Topo: cp.topo, Foo: cp.foo, Colo: cp.colo}
+		cscn := c14cScenario{Lanes: cp.lanes, Cfg: biCfg{cp.mode, 2}, MaxCrashes: ccrashes, Idle: 1, Cluster: true, Soft: cp.soft, Pre: cp.pre, AutoFlush: cp.auto, PreSameLife: cp.same, Topo: cp.topo, Foo: cp.foo, Colo: cp.colo, Burst: cp.burst}
 		if len(cp.topo) > 0 {
 			cscn.MaxCrashes = 0
 		}
